@@ -1,6 +1,7 @@
 import Femio.Driver.Proto
 import Femio.Driver.C20
 import Femio.Model.CompressSteps
+import Femio.Model.CompressAdmit
 /-! driver commands for the step models of C20 (`Model/CompressSteps.lean`)
 
 ```
@@ -13,6 +14,9 @@ c20.good <cells: list flat> <conv: list nat>       -> ok <goodB: the hypothesis 
 c20.run <cells: list flat> <conv: list nat> <n> <op>*n
         op := merge <groups: list (list nat)> | edge <A> <B> <ps: list nat> | rv2 | mv <a> <b> | shrink
                                                    -> ok 0 | ok 1 <cells> <conv: list nat>
+c20.admit <T: rat> <f: list point> <g: list point>     point := <x: rat> <y: rat> <z: rat>
+        -> ok <admits fixed: 0|1> <admits upstream: 0|1> <unsigned squared test (fan normals): 0|1>
+              <fan normal of f: 3 rat> <fan normal of g: 3 rat>        (Model/CompressAdmit.lean)
 ``` -/
 namespace Femio.C20S
 open Femio.Proto Femio.C20
@@ -64,6 +68,13 @@ def handle : List String → Option String
     match runOps ops ⟨cells, conv⟩ with
     | none => some "ok 0"
     | some s => some s!"ok 1 {showCells s.cells} {showList toString s.conv}"
+  | "c20.admit" :: rest => do
+    let pt : P (V3 Rat) := do let x ← rat; let y ← rat; let z ← rat; pure ⟨x, y, z⟩
+    let (T, f, g) ← run (do let T ← rat; let f ← listOf pt; let g ← listOf pt; pure (T, f, g)) rest
+    let x := fanNormal f
+    let y := fanNormal g
+    let sh (v : V3 Rat) : String := s!"{showRat v.x} {showRat v.y} {showRat v.z}"
+    some s!"ok {showBool (admits NormalCfg.fixed T f g)} {showBool (admits NormalCfg.upstream T f g)} {showBool (cosGeUnsigned (V3.dot x y) (V3.normSq x * V3.normSq y) T)} {sh x} {sh y}"
   | _ => none
 
 end Femio.C20S
